@@ -21,5 +21,9 @@ def run(project, rep):
     rep.run(T.t_r2, project, rep)
     rep.run(T.t_r3, project, rep)
     rep.run(T.t_r4, project, rep)
+    rep.run(T.t_r4b_guards_constant, project, rep)
     rep.rule("B-R12", "what is validated is the text of the file: the header lines are decoded one character per byte, nothing dropped (the chunk clauses of H-R1) - a decoder that leaves bytes out turns `TYPE\\xb91` into the valid token TYPE1")
     rep.run_only(("H-R1",), H.h_r1, project, rep, constructs=("parse_header:rawheader-starts-with-first-line-as-read", "parse_header:rawheader-extended-with-lines-as-read"))
+    from .. import rules_request as Q
+    rep.rule("B-R13", "the header the client generates is made for the version asked for: a `version` parameter of a request method is never accepted and dropped (the version clause of Q-R1)")
+    rep.run_only(("Q-R1",), Q.q_r1_params, project, rep, constructs=lambda c: c.endswith("(version)"))
